@@ -5,8 +5,11 @@ import Xc.Thm.C13
 import Xc.Thm.C18
 import Xc.Lemmas.Accept
 import Xc.Lemmas.Accept2
+import Xc.Lemmas.GensaltSafe
+import Xc.Thm.C01
+import Xc.Config
 namespace Xc.C10
-open Xc
+open Xc List
 
 /-- determinism and agreement of the three entry points: `_ra` and the static variant are
     `crypt_gensalt_rn` with a CRYPT_GENSALT_OUTPUT_SIZE buffer; the result is a function of
@@ -118,5 +121,170 @@ theorem C10_accept_all (d : Bool) (D : Digests) (hD : D.WF) (hst : ∀ f, D.bfSe
       cases d with
       | true => simp; exact h3 rfl
       | false => simp; exact h2
+
+theorem tags : C18.tagOf .yescrypt = [36, 121, 36] ∧ C18.tagOf .gost_yescrypt = [36, 103, 121, 36] ∧ C18.tagOf .scrypt = [36, 55, 36] ∧
+    C18.tagOf .bcrypt = [36, 50, 98, 36] ∧ C18.tagOf .bcrypt_a = [36, 50, 97, 36] ∧ C18.tagOf .bcrypt_y = [36, 50, 121, 36] ∧
+    C18.tagOf .sha512crypt = [36, 54, 36] ∧ C18.tagOf .sha256crypt = [36, 53, 36] ∧ C18.tagOf .md5crypt = [36, 49, 36] ∧
+    C18.tagOf .sha1crypt = [36, 115, 104, 97, 49] ∧ C18.tagOf .sunmd5 = [36, 109, 100, 53] ∧ C18.tagOf .nt = [36, 51, 36] ∧
+    C18.tagOf .bsdicrypt = [95] ∧ C18.tagOf .descrypt = [] ∧ C18.tagOf .bigcrypt = [] := by decide
+
+/-- a generated setting begins with the tag of the method that wrote it -/
+theorem gensalt_tag (d : Bool) (m : Method) (count : Nat) (rb : Bytes) (n o : Nat) (S : Bytes) (e : Nat)
+    (h : gensaltMethod d m count rb n o = .ok S e) :
+    C18.tagOf m <+: S ∧ (C18.tagOf m = [] → isDesSaltChar (cat S 0) = true ∧ isDesSaltChar (cat S 1) = true ∧ S ≠ []) := by
+  obtain ⟨t1, t2, t3, t4, t5, t6, t7, t8, t9, t10, t11, t12, t13, t14, t15⟩ := tags
+  have pre : ∀ (t x : Bytes), t <+: t ++ x := fun t x => ⟨x, rfl⟩
+  have nc : ∀ {P : Prop} {a : UInt8} {l : Bytes}, (a :: l = [] → P) := fun c => by cases c
+  cases m <;> simp only [gensaltMethod] at h
+  case yescrypt =>
+    obtain ⟨_, _, _, hS⟩ := gensaltYescrypt_shape h
+    rw [t1, hS, yesPfx_split, List.append_assoc]; exact ⟨pre _ _, nc⟩
+  case gost_yescrypt =>
+    obtain ⟨_, _, _, hS⟩ := gensaltGost_shape h
+    rw [t2, hS, List.append_assoc]; exact ⟨pre _ _, nc⟩
+  case scrypt =>
+    obtain ⟨_, _, _, hS⟩ := gensaltScrypt_shape h
+    rw [t3, hS]; unfold scryptPfx; simp only [List.append_assoc]; exact ⟨pre _ _, nc⟩
+  case bcrypt | bcrypt_y | bcrypt_a =>
+    unfold gensaltBf at h
+    simp only [] at h
+    split at h; · cases h
+    split at h; · cases h
+    simp only [WOut.ok.injEq] at h
+    first | rw [t4, ← h.1] | rw [t5, ← h.1] | rw [t6, ← h.1]
+    exact ⟨⟨_, rfl⟩, nc⟩
+  case bcrypt_x => cases h
+  case sha512crypt =>
+    obtain ⟨c, salt, hS, _⟩ := gensaltSha_shape 54 _ _ _ _ count rb n o S e (by decide) (by decide) (by decide) (by decide) h
+    rw [t7, hS, List.append_assoc]; exact ⟨pre _ _, nc⟩
+  case sha256crypt =>
+    obtain ⟨c, salt, hS, _⟩ := gensaltSha_shape 53 _ _ _ _ count rb n o S e (by decide) (by decide) (by decide) (by decide) h
+    rw [t8, hS, List.append_assoc]; exact ⟨pre _ _, nc⟩
+  case md5crypt =>
+    unfold gensaltMd5 at h
+    split at h; · cases h
+    obtain ⟨c, salt, hS, _⟩ := gensaltSha_shape 49 _ _ _ _ 1000 rb n o S e (by decide) (by decide) (by decide) (by decide) h
+    rw [t9, hS, List.append_assoc]; exact ⟨pre _ _, nc⟩
+  case sha1crypt =>
+    unfold gensaltSha1 at h
+    split at h; · cases h
+    split at h; · cases h
+    dsimp only at h
+    split at h; · cases h
+    simp only [WOut.ok.injEq] at h
+    rw [t10, ← h.1]
+    have q : ∀ x : Bytes, [36, 115, 104, 97, 49] <+: [36, 115, 104, 97, 49, 36] ++ x := fun x => ⟨36 :: x, rfl⟩
+    simp only [List.append_assoc]
+    exact ⟨q _, nc⟩
+  case sunmd5 =>
+    unfold gensaltSunmd5 at h
+    split at h; · cases h
+    split at h; · cases h
+    dsimp only at h
+    split at h; · cases h
+    simp only [WOut.ok.injEq] at h
+    rw [t11, ← h.1]
+    have q : Gen.SUNMD5_PREFIX = [36, 109, 100, 53] := rfl
+    rw [q]
+    simp only [List.append_assoc]
+    exact ⟨pre _ _, nc⟩
+  case nt =>
+    unfold gensaltNt at h
+    split at h; · cases h
+    split at h; · cases h
+    simp only [WOut.ok.injEq] at h
+    rw [t12, ← h.1]; exact ⟨List.prefix_refl _, nc⟩
+  case bsdicrypt =>
+    unfold gensaltBsdi at h
+    split at h; · cases h
+    split at h; · cases h
+    simp only [WOut.ok.injEq] at h
+    rw [t13, ← h.1, List.append_assoc]; exact ⟨pre _ _, nc⟩
+  case descrypt =>
+    rw [t14, des_text h]
+    exact ⟨List.nil_prefix, fun _ => ⟨by simp [cat, C01.isDes_a64'], by simp [cat, C01.isDes_a64'], by simp⟩⟩
+  case bigcrypt =>
+    rw [t15]
+    refine ⟨List.nil_prefix, fun _ => ?_⟩
+    unfold gensaltBig at h
+    cases d with
+    | true =>
+      simp only [if_true] at h; rw [des_text h]
+      exact ⟨by simp [cat, C01.isDes_a64'], by simp [cat, C01.isDes_a64'], by simp⟩
+    | false =>
+      simp only [Bool.false_eq_true, if_false] at h
+      split at h; · cases h
+      split at h
+      · rename_i s ext hs
+        simp only [WOut.ok.injEq] at h
+        rw [← h.1, des_text hs]
+        exact ⟨by simp [cat, C01.isDes_a64'], by simp [cat, C01.isDes_a64'], by simp⟩
+      · rename_i x hne; exact absurd h (hne S e)
+
+/-- rows of a generated table call the same method for hashing and for gensalt -/
+theorem mkTable_same (conf : List ConfEntry) (en : Method → Bool) : ∀ r ∈ mkTable conf en, r.gensalt = r.crypt := by
+  intro r hr
+  unfold mkTable at hr
+  simp only [List.mem_map] at hr
+  obtain ⟨e, _, rfl⟩ := hr
+  rfl
+
+theorem table_same_tree : ∀ r ∈ Gen.table, r.gensalt = r.crypt := by decide
+
+/-- **C10 at the level of the API**: in every configuration whose table is `TableOk` and whose rows use one method for hashing
+    and gensalt (every generated table: `mkTable_same`), whatever `crypt_gensalt_rn` returned — any prefix (or NULL), count, random
+    bytes, nrbytes, output size — is passwd-safe, is dispatched by `crypt` to the same table row the prefix selected, and `crypt`
+    of any phrase shorter than 512 bytes with it succeeds with a hash that begins with the generated setting -/
+theorem C10_api (cfg : Config) (hT : C18.TableOk cfg.table = true) (hG : ∀ r ∈ cfg.table, r.gensalt = r.crypt)
+    (D : Digests) (hD : D.WF) (hst : ∀ f, D.bfSelfTest f = true)
+    (pfx : Option Bytes) (count : Nat) (rb : Option Bytes) (nrb osize : Int) (os : Nat → Bytes) (S : Bytes)
+    (h : (gensaltRn cfg pfx count rb nrb osize os).ret = some S) (p : Bytes) (hp : p.length < Gen.CRYPT_MAX_PASSPHRASE_SIZE) (hk : KdfOk D p) :
+    passwdSafe S = true ∧
+    ∃ r H, getHashFn cfg.table S = some r ∧ (∃ p0, resolvePrefix cfg pfx = some p0 ∧ getHashFn cfg.table p0 = some r) ∧
+      cryptPure cfg D p S = .ok H ∧ (if r.crypt = .bigcrypt ∧ cfg.descryptOn = false then S.take 2 <+: H else S <+: H) := by
+  unfold gensaltRn at h
+  by_cases h3 : osize < 3
+  · rw [if_pos h3] at h; simp [GRes.fail] at h
+  rw [if_neg h3] at h
+  cases hp0 : resolvePrefix cfg pfx with
+  | none => rw [hp0] at h; simp [GRes.fail] at h
+  | some p0 =>
+    rw [hp0] at h
+    simp only [] at h
+    cases hg : getHashFn cfg.table p0 with
+    | none => rw [hg] at h; simp [GRes.fail] at h
+    | some r =>
+      rw [hg] at h
+      simp only [] at h
+      cases hw : gensaltMethod cfg.descryptOn r.gensalt count (rbArgs r rb nrb os).1 (rbArgs r rb nrb os).2 osize.toNat with
+      | err e => rw [hw] at h; simp [GRes.fail] at h
+      | abort => rw [hw] at h; simp [GRes.fail] at h
+      | ok s ext =>
+        rw [hw] at h
+        simp only [Option.some.injEq] at h
+        subst h
+        have rmem : r ∈ cfg.table := List.mem_of_find?_eq_some hg
+        have hsame := hG r rmem
+        rw [hsame] at hw
+        have hsafe := gensaltMethod_safe _ _ _ _ _ _ _ _ hw
+        refine ⟨hsafe, ?_⟩
+        obtain ⟨htag, hdes⟩ := gensalt_tag _ _ _ _ _ _ _ _ hw
+        have hT' := hT
+        simp only [C18.TableOk, Bool.and_eq_true, List.all_eq_true] at hT'
+        obtain ⟨_, htagr⟩ := hT'
+        have rtag : r.pfx = C18.tagOf r.crypt := by simpa using htagr r rmem
+        have hdisp : getHashFn cfg.table s = some r := by
+          apply C01.redispatch cfg.table hT p0 s r hg
+          by_cases he : r.pfx = []
+          · right
+            have := hdes (by rw [← rtag]; exact he)
+            exact ⟨he, this.1, this.2.1, this.2.2⟩
+          · left; exact ⟨he, by rw [rtag]; exact htag⟩
+        obtain ⟨H, hH, hpre⟩ := C10_accept_all cfg.descryptOn D hD hst r.crypt count _ _ _ s ext hw p hk
+        refine ⟨r, H, hdisp, ⟨p0, rfl, hg⟩, ?_, hpre⟩
+        unfold cryptPure
+        rw [if_neg (by omega), checkBad_eq, hsafe]
+        simp only [Bool.not_true, Bool.false_eq_true, if_false, hdisp]
+        exact hH
 
 end Xc.C10
